@@ -4,6 +4,7 @@ INVARIANT TypeOK
 INVARIANT JusticeCovers
 INVARIANT CheaterKeepsNothing
 INVARIANT NoEntitledOutputIdle
+INVARIANT RebroadcastCovers
 INVARIANT BalancesAddUp
 INVARIANT Drained
 POSTCONDITION TraceAccepted
